@@ -175,6 +175,8 @@ pub struct EnumBounds {
     pub extremes_upto_slots: usize,
     /// duplicate-token layouts for rings with at most this many slots (0 = never)
     pub dup_upto_slots: usize,
+    /// further cap on the number of nodes as a function of the number of slots
+    pub node_cap: fn(usize) -> usize,
 }
 
 /// Simplest first: by slots, then nodes, then slot sequence, then placement, then layout.
@@ -182,7 +184,7 @@ pub fn enumerate(b: &EnumBounds) -> Vec<Topo> {
     let mut out = Vec::new();
     let mut placement_cache: BTreeMap<usize, Vec<(Vec<Option<u8>>, Vec<Option<u8>>)>> = BTreeMap::new();
     for t in 1..=b.max_slots {
-        for n in 1..=t.min(b.max_nodes) {
+        for n in 1..=t.min(b.max_nodes).min((b.node_cap)(t)) {
             let pl = placement_cache.entry(n).or_insert_with(|| placements(n, b.max_dcs, b.max_racks, true, true)).clone();
             for seq in slot_sequences(t, n) {
                 for (dc, rack) in &pl {
